@@ -30,7 +30,7 @@ name: unparse.frame
 define: U_FRAME, NET_CSTR_LITERALS, VERIF_NO_ASSUMED_STR_CONTRACTS
 src: url.c
 backend: cadical
-timeout: 200
+timeout: 300
 native: self
 flags: --memory-leak-check
 funcs: spif_url_unparse, spif_obj_set_class, spif_str_done, spif_str_init_from_ptr, spif_str_append, spif_str_append_char, spif_str_append_from_ptr, spif_str_new_from_ptr
